@@ -352,20 +352,21 @@ Print Assumptions C14_x86_compile_asm_wf_lin_needed.
        offsets 16..72, the caller-save bracket of print), LDP/STP of prologue / epilogue -, and every branch target
        within the reach of its form (B.cond / ADR +-1 MiB: the routine is shorter).
        Hypotheses, all boolean on the PROGRAM: labels_guard, lin_check_prog (gives calls_guard), plain names / types,
-       imm_guard_a64 (a type declares at most 1024 xtors: `ADD Xt, Xt, #4k`),
        reach_guard_a64 (28 + cg_fine_defs 14 74 < 262143 instructions: a two-weight refinement of the size theorem
        of C19, Proof/SizeCodegenFine.v, SizeA64Fine.v).  No hypothesis on
        literals: every 64-bit pattern is synthesised from half-words.  No hypothesis on the size of a Substitute: the
        increment of a reference count is below 4096 because every copy of a variable has its own temporary.
-       The xtor bound is a REAL limit (finding): C14_a64_compile_asm_wf_xtors_needed and docs/C14.md; so is the reach
-       (a conditional over more than 1 MiB of code: docs/C14.md), which the guard over-approximates.
+       No hypothesis on the number of xtors any more: the table dispatch `ADD Xt, Xt, #4k` was unencodable beyond 1023
+       xtors (finding, REPAIRED: the offset is synthesised in X3 when it does not fit; regression lemma
+       C14_a64_compile_asm_wf_xtors_regression about the old code).  The reach is a REAL limit (known finding
+       a64-branch-reach: a conditional over more than 1 MiB of code, docs/C14.md), which the guard over-approximates.
    (k) per-method lemmas `A64WfAll.W (method args)`; code_small under the size_guard of x86-64. *)
 From SCC Require Import Sem.WfGuard64 Proof.SizeA64Fine Proof.A64WfAll Proof.A64WfProg Proof.A64WfCor Proof.A64HSimExample Proof.A64HSimExampleW Proof.AxHeapExample.
 
 Theorem C14_a64_compile_asm_wf :
   forall (p : prog) (lc : N) (cs : list A64.acode) (n : nat) (lc' : N),
     labels_guard p = true -> lin_check_prog p = true ->
-    plain_names p = true -> plain_types p = true -> imm_guard_a64 p = true -> reach_guard_a64 p = true ->
+    plain_names p = true -> plain_types p = true -> reach_guard_a64 p = true ->
     A64.a64_compile p lc = Ok (cs, n, lc') -> A64Wf.asm_wf cs = None.
 Proof. exact a64_compile_asm_wf. Qed.
 Print Assumptions C14_a64_compile_asm_wf.
@@ -405,10 +406,15 @@ Theorem C14_a64_load_immediate_wf :
 Proof. exact A64WfAll.W_load_immediate. Qed.
 Print Assumptions C14_a64_load_immediate_wf.
 Theorem C14_a64_table_jump_wf :
-  forall (t : A64.atemp) (k : N),
-    A64WfAll.temp_enc t -> (k < A64_XTORS_MAX)%N -> A64WfAll.W (A64.a_add_and_jump t (A64.jump_length k)).
+  forall (t : A64.atemp) (i : Z), A64WfAll.temp_enc t -> A64WfAll.W (A64.a_add_and_jump t i).
 Proof. exact A64WfAll.W_add_and_jump. Qed.
 Print Assumptions C14_a64_table_jump_wf.
+(* the code before the repair: only below 1024 xtors *)
+Theorem C14_a64_old_table_jump_wf :
+  forall (t : A64.atemp) (k : N),
+    A64WfAll.temp_enc t -> (k < A64_XTORS_MAX)%N -> A64WfAll.W (A64.old_a_add_and_jump t (A64.jump_length k)).
+Proof. exact A64WfAll.W_old_add_and_jump. Qed.
+Print Assumptions C14_a64_old_table_jump_wf.
 Theorem C14_a64_print_wf :
   forall (nl : bool) (s : A64.atemp) (c : ctx), A64WfAll.temp_enc s -> A64WfAll.W (A64.a_print nl s c).
 Proof. exact A64WfAll.W_print. Qed.
@@ -459,17 +465,19 @@ Theorem C14_a64_compile_asm_wf_nonvacuous :
 Proof. exact wf_guard_a64_examples. Qed.
 Print Assumptions C14_a64_compile_asm_wf_nonvacuous.
 
-(* the xtor bound cannot be dropped: a type with 1026 destructors and an invoke of the last one satisfy every other
-   hypothesis (and the imm guard with 1026 for 1024); the code contains `ADD X5, X5, #4100` *)
-Theorem C14_a64_compile_asm_wf_xtors_needed :
+(* regression (finding "tag dispatch immediate", repaired): a type with 1026 destructors and an invoke of the last one
+   satisfy every hypothesis of the theorem; the code generator BEFORE the repair emits `ADD X5, X5, #4100` and fails
+   asm_wf, the repaired one emits `MOVZ X3, #4100; ADD X5, X5, X3` and passes *)
+Theorem C14_a64_compile_asm_wf_xtors_regression :
   let p := wide_type_prog 1026 in
-  labels_guard p = true /\ lin_check_prog p = true /\ plain_names p = true /\ plain_types p = true /\
-  imm_guardP 1026 any_lit p = true /\ imm_guard_a64 p = false /\ reach_guard_a64 p = true /\
-  exists cs n lc', A64.a64_compile p 0 = Ok (cs, n, lc') /\
-    A64Wf.asm_wf cs = Some "operand not encodable in its instruction form"%string /\
-    In (A64.ADDI (A64.X 5) (A64.X 5) 4100) cs.
-Proof. exact asm_wf_xtors_needed. Qed.
-Print Assumptions C14_a64_compile_asm_wf_xtors_needed.
+  wf_guard_a64 p = true /\ old_imm_guard_a64 p = false /\
+  (exists cs n lc', old_a64_compile p 0 = Ok (cs, n, lc') /\
+     A64Wf.asm_wf cs = Some "operand not encodable in its instruction form"%string /\
+     In (A64.ADDI (A64.X 5) (A64.X 5) 4100) cs) /\
+  (exists cs n lc', A64.a64_compile p 0 = Ok (cs, n, lc') /\ A64Wf.asm_wf cs = None /\
+     In (A64.MOVZ (A64.X 3) 4100 0) cs /\ In (A64.ADD (A64.X 5) (A64.X 5) (A64.X 3)) cs).
+Proof. exact asm_wf_xtors_regression. Qed.
+Print Assumptions C14_a64_compile_asm_wf_xtors_regression.
 
 (* ======================= round 4: asm_wf and code_small as THEOREMS for RISC-V =======================
    PROVED now (Sem/WfGuard64.v, Proof/RVWfAll.v, Proof/RVWfCor.v):
@@ -477,9 +485,9 @@ Print Assumptions C14_a64_compile_asm_wf_xtors_needed.
        applies to the real output: labels (with the routine's `cleanup`) defined once, every referenced label defined,
        registers x0..x31, ADDI / JALR / LW / SW with a 12-bit signed immediate (field offsets 16..72, reference-count
        increments, the table dispatch), LI with a 64-bit value.  Hypotheses, all boolean on the PROGRAM: labels_guard,
-       lin_check_prog (gives calls_guard), imm_guard_rv (literals 64-bit; a type declares at most 512 xtors:
-       `ADDI X1, Xt, 4k`).  The xtor bound is a REAL limit (finding):
-       C14_rv_compile_asm_wf_xtors_needed and docs/C14.md.
+       lin_check_prog (gives calls_guard), imm_guard_rv (literals 64-bit; a type declares fewer than 2^61 xtors).  The
+       table dispatch `ADDI X1, Xt, 4k` was unencodable beyond 511 xtors (finding, REPAIRED: a larger offset goes through
+       `LI X1`; regression lemma C14_rv_compile_asm_wf_xtors_regression about the old code).
    (m) code_small under the size_guard of x86-64. *)
 From SCC Require Import Proof.RVWfAll Proof.RVWfCor Proof.RVHSimExample.
 
@@ -499,9 +507,15 @@ Print Assumptions C14_rv_compile_code_small.
 
 (* the back-end methods, for all arguments the generic code generator can hand over *)
 Theorem C14_rv_table_jump_wf :
-  forall (t : RV.reg) (k : N), RVWfAll.reg_enc t -> (k < RV_XTORS_MAX)%N -> RVWfAll.W (RV.r_add_and_jump t (RV.jump_length k)).
-Proof. exact RVWfAll.W_add_and_jump. Qed.
+  forall (t : RV.reg) (i : Z), RVWfAll.reg_enc t -> lit64 i = true -> RVWfAll.W (RV.r_add_and_jump t i).
+Proof. exact RVWfAll.W_add_and_jump_any. Qed.
 Print Assumptions C14_rv_table_jump_wf.
+(* the code before the repair: only below 512 xtors *)
+Theorem C14_rv_old_table_jump_wf :
+  forall (t : RV.reg) (k : N),
+    RVWfAll.reg_enc t -> (k < RV_OLD_XTORS_MAX)%N -> RVWfAll.W (RV.old_r_add_and_jump t (RV.jump_length k)).
+Proof. exact RVWfAll.W_old_add_and_jump. Qed.
+Print Assumptions C14_rv_old_table_jump_wf.
 Theorem C14_rv_load_immediate_wf :
   forall (t : RV.reg) (i : Z), RVWfAll.reg_enc t -> lit64 i = true -> RVWfAll.W (RV.r_load_immediate t i).
 Proof. exact RVWfAll.W_load_immediate. Qed.
@@ -533,13 +547,15 @@ Theorem C14_rv_compile_asm_wf_nonvacuous :
 Proof. exact wf_guard_rv_examples. Qed.
 Print Assumptions C14_rv_compile_asm_wf_nonvacuous.
 
-(* the xtor bound cannot be dropped: 514 destructors, invoke of the last one: `ADDI X1, X5, 2052` *)
-Theorem C14_rv_compile_asm_wf_xtors_needed :
+(* regression (finding "tag dispatch immediate", repaired): 514 destructors, invoke of the last one - the old code emits
+   `ADDI X1, X5, 2052` and fails asm_wf, the repaired one `LI X1, 2052; ADD X1, X5, X1` *)
+Theorem C14_rv_compile_asm_wf_xtors_regression :
   let p := RVWfCor.wide_type_prog 514 in
-  labels_guard p = true /\ lin_check_prog p = true /\
-  imm_guardP 514 lit64 p = true /\ imm_guard_rv p = false /\
-  exists cs n lc', RV.rv_compile p 0 = Ok (cs, n, lc') /\
-    RVWf.asm_wf cs = Some "operand not encodable in its instruction form"%string /\
-    In (RV.ADDI RV.TEMP 5%N 2052) cs.
-Proof. exact RVWfCor.asm_wf_xtors_needed. Qed.
-Print Assumptions C14_rv_compile_asm_wf_xtors_needed.
+  wf_guard_rv p = true /\ old_imm_guard_rv p = false /\
+  (exists cs n lc', RVWfCor.old_rv_compile p 0 = Ok (cs, n, lc') /\
+     RVWf.asm_wf cs = Some "operand not encodable in its instruction form"%string /\
+     In (RV.ADDI RV.TEMP 5%N 2052) cs) /\
+  (exists cs n lc', RV.rv_compile p 0 = Ok (cs, n, lc') /\ RVWf.asm_wf cs = None /\
+     In (RV.LI RV.TEMP 2052) cs /\ In (RV.ADD RV.TEMP 5%N RV.TEMP) cs).
+Proof. exact RVWfCor.asm_wf_xtors_regression. Qed.
+Print Assumptions C14_rv_compile_asm_wf_xtors_regression.
